@@ -2,6 +2,7 @@
 
 from __future__ import annotations
 
+import itertools
 import math
 import random as pyrandom
 import sys
@@ -30,7 +31,7 @@ PLAN = {
     "thorough": {"shards": 16, "shard_timeout": 3600, "case_timeout": 60, "cases": 1000000, "max_case_timeouts": 10},
 }
 THRESHOLDS = {
-    "quick": {"contract_evaluations": 100000, "impl:native": 5000, "impl:ge": 5000, "impl:stack": 5000, "impl:sge": 5000, "impl:dsge": 1000, "exhaustive_spaces": 100, "decider_random_int": 20000, "wide_ranges": 3000, "zero_weight_offers": 2000, "same_seed_streams": 20, "decider_widths_enumerated": 3000},
+    "quick": {"contract_evaluations": 100000, "impl:native": 5000, "impl:ge": 5000, "impl:stack": 5000, "impl:sge": 5000, "impl:dsge": 1000, "exhaustive_spaces": 100, "decider_random_int": 20000, "wide_ranges": 3000, "zero_weight_offers": 2000, "same_seed_streams": 20, "decider_widths_enumerated": 3000, "weighted_enumerations_with_reused_list": 10},
     "thorough": {"contract_evaluations": 2000000, "exhaustive_spaces": 2000, "decider_random_int": 400000},
 }
 
@@ -323,15 +324,25 @@ def exhaustive(rng, rec):
             units[rng.randrange(len(units))] = 1
         w = [u * 0.00001 for u in units]
         opts = list(range(len(units)))
-        got = Counter(res for res, _ in sources.enumerate_runs(lambda s: s.choice_weighted(list(opts), list(w))))
+        reuse = rng.random() < 0.5  # a caller that keeps ONE weight list for all its calls (WeightedStringHandler's matrix rows)
+        if reuse:
+            rec.count("weighted_enumerations_with_reused_list")
+            fresh = Counter(res for res, _ in sources.enumerate_runs(lambda s: s.choice_weighted(list(opts), list(w))))
+            try:
+                got = Counter(res for res, _ in itertools.islice(sources.enumerate_runs(lambda s: s.choice_weighted(opts, w)), 4 * sum(units) + 4))
+            except sources.NotFiniteChoice as e:
+                # with fresh copies of the same weights the draw space was finite: only the reuse of the list changed it
+                _viol("choice_weighted-not-proportional-over-all-draws:reused-list", {"weights_in_units_of_1e-5": units, "with_fresh_copies": dict(fresh), "error": core.short(e), "weights_list_after_the_calls": list(w)})
+                return
+        else:
+            got = Counter(res for res, _ in sources.enumerate_runs(lambda s: s.choice_weighted(list(opts), list(w))))
         exp = Counter({i: u for i, u in enumerate(units) if u})
         rec.count("zero_weight_offers", sum(got.values()) if 0 in units else 0)
         if got != exp:
-            _viol("choice_weighted-not-proportional-over-all-draws", {"weights_in_units_of_1e-5": units, "selection_counts": dict(got), "expected": dict(exp)})
+            _viol("choice_weighted-not-proportional-over-all-draws" + (":reused-list" if reuse and w != [u * 0.00001 for u in units] else ""), {"weights_in_units_of_1e-5": units, "selection_counts": dict(got), "expected": dict(exp), "weights_list_after_the_calls": list(w)})
     elif which == "shuffle":
         n = rng.choice([0, 1, 2, 3, 4])
         got = Counter(tuple(res) for res, _ in sources.enumerate_runs(lambda s: s.shuffle(list(range(n)))))
-        import itertools
 
         if set(got) != set(itertools.permutations(range(n))) or len(set(got.values())) > 1:
             _viol("shuffle-not-uniform-over-all-draws", {"n": n, "distinct_results": len(got), "counts": sorted(got.values())[:6]})
